@@ -73,6 +73,21 @@ def c01(res, tier, rng, wd):
         s = e1.gen_random_sequences(rng, framing, 40 if thorough else 8, sid, lat, small=False, frames=(1, 8))
         scs += s
         sid += len(s)
+    # a frame without a function code (length field 1) is never answered -- and the requests behind it are, in order
+    for k in range(24 if thorough else 6):
+        tx = rng.randrange(60000)
+        fr = []
+        for i in range(rng.randint(3, 9)):
+            u = rng.choice([1, 1, 2, 9])
+            if rng.random() < 0.4:
+                fr.append([(tx + i) >> 8, (tx + i) & 255, 0, 0, 0, 1, u])
+            else:
+                fr.append(e1.frame("tcp", tx + i, u, e1.random_valid_pdu(rng)))
+        fr.append(e1.frame("tcp", tx + 20, 1, e1.req_read(3, 0, 3)))
+        data = [b for f in fr for b in f]
+        steps = [e1.rx(f) for f in fr] if k % 3 == 0 else ([e1.rx(data)] if k % 3 == 1 else [e1.rx(c) for c in e1.chunk_random(rng, data)])
+        scs.append(e1.scenario(sid, "tcp", [1, 2], steps, seed=rng.randrange(100), tag="c01-empty-frames-between-requests"))
+        sid += 1
     # one reply per request whatever else the session is told meanwhile and at every decode level
     s = e1.gen_split_with_command(rng, 40 if thorough else 12, sid, tagp="c01")
     scs += s
@@ -378,7 +393,9 @@ def c08(res, tier, rng, wd):
     design_server(res, "C08", ["DenyHasNoEffect", "AuthBeforeEffect", "AuthExactlyOnceForWellFormed", "ExceptionCodes"], thorough)
     scs = e1.gen_c08(rng, 0, thorough)
     run_e1(res, "C08", scs, wd, "c08")
-    res.assumptions = E1_ASSUME + ["the role string reaches the session through the verif-hooks constructor; the certificate path is C09's"]
+    # the certificate path: a real TLS server with authorization, roles from fixture certificates, a role-less certificate
+    run_e4(res, "C08", e4.gen_c08_tls(rng), wd, "c08tls")
+    res.assumptions = E1_ASSUME + ["the role string reaches the session through the verif-hooks constructor in the session-level part; the certificate path is exercised on a real TLS server (and in C09)"]
     return res.finish(rule="8 request kinds x {allow, deny, built-in read-only} x {configured, unconfigured, broadcast} unit x 6 role "
                            "strings with read-back after every write, plus random sequences under a per-request hash policy of "
                            "(kind, unit, range, seed) mixed with invalid requests; the single auth event must carry the exact arguments and precede any effect")
